@@ -57,13 +57,13 @@ char * g_last;           /* where the last "{{" was found */
  * (contract-replaced) recursive call, exactly as with real allocation.
  * A string has no bytes here: str is the address of the object's tag byte (identity only), lengths are the DString fields; "inside the
  * string" is therefore stated over offsets (obligation (P)), not over memory. */
-typedef struct { size_t rem; bool searched; bool live; DString * eng_d; DString d; char tag; } dsobj;
+typedef struct { size_t open_off, stop_off, ins_len; bool opened, ins, toc; bool live; DString * eng_d; DString d; char tag; } dsobj;     /* open_off..toc: ghost of obligation (R), per document */
 typedef struct pool { dsobj fp, eng, buf; } pool;
 dsobj * g_S;             /* the document of the call under verification */
 pool * g_p0, * g_p1;     /* its scratch pool, and the (opaque) pool of a nested call */
 static void obj_init(dsobj * o, size_t extra) {
 	ASSERT(!o->live, "model capacity: one candidate path, one buffer and one engine alive at a time per activation");
-	o->live = true; o->d.str = &o->tag; o->eng_d = NULL; o->searched = false;
+	o->live = true; o->d.str = &o->tag; o->eng_d = NULL; o->opened = false; o->ins = false; o->toc = false;
 	size_t cap, l; ASSUME(cap >= 1 && cap <= DSMAX && l < cap && cap <= extra + 1);
 	o->d.currentStringBufferSize = cap; o->d.currentStringLength = l;
 }
@@ -100,8 +100,10 @@ void d_string_insert(DString * d, size_t pos, const char * s) {
 	size_t n = g_p0->buf.d.currentStringLength;                       /* strlen(s): DS_WF of the owner (C19) */
 	ASSUME(d->currentStringLength + n < d->currentStringBufferSize);
 	d->currentStringLength += n;
+	if (d == &g_S->d) { g_S->ins = true; g_S->ins_len = n; }
 }
 
+stack * g_peek_stack; size_t g_peek_idx;      /* provenance of the last entry read: which stack, which index */
 /* ------------------------------------------------------------------ stack.c by contract (C18): push/pop/peek_index/new/free */
 static stack * st_fresh(void) {
 	stack * s = malloc(sizeof(stack)); size_t cap; ASSUME(cap >= 1 && cap <= CAPMAX);
@@ -118,8 +120,8 @@ void stack_push(stack * s, void * element) {
 	ASSUME(s->size < (size_t)s->capacity);      /* growth by realloc is stack_push's contract (C18); capacity is symbolic */
 	s->element[s->size++] = element;
 }
+void * stack_peek(stack * s) { g_peek_stack = s; g_peek_idx = s->size - 1; return s->size == 0 ? NULL : s->element[s->size - 1]; }
 void * stack_pop(stack * s) { if (s->size == 0) { return NULL; } return s->element[--s->size]; }
-stack * g_peek_stack; size_t g_peek_idx;      /* provenance of the last entry read: which stack, which index */
 void * stack_peek_index(stack * s, size_t index) { g_peek_stack = s; g_peek_idx = index; return index >= s->size ? NULL : s->element[index]; }
 
 /* ------------------------------------------------------------------ my_strdup (static in transclude.c: strlen + malloc + strcpy) by contract:
@@ -145,27 +147,27 @@ char * mmd_engine_metavalue_for_key(mmd_engine * e, const char * key) { bool has
 void mmd_engine_free(mmd_engine * e, bool freeDString) { ASSERT((dsobj *)e == &g_p0->eng, "the engine freed is the one created"); obj_release(&g_p0->eng); }
 
 /* ------------------------------------------------------------------ libc string functions: content-free contracts */
-/* (T) for the configuration whose marker loop is unwound (-DUNWOUND): the bytes that remained after the previous match are kept in the document's own slot */
 char * strstr(const char * h, const char * nd) {
 	ASSERT(__CPROVER_same_object(h, g_src->str), "(P) the search starts inside the document being expanded");
 	size_t L = g_src->currentStringLength;
 	ASSERT((size_t)h >= (size_t)g_src->str && (size_t)h - (size_t)g_src->str <= L, "(P) the search position is inside the string (0 <= position <= length)");
 	size_t off = (size_t)h - (size_t)g_src->str;
 	bool closer = nd[0] == '}';
-	if (closer) { ASSERT(h == g_last, "the closing braces are searched from the opening braces"); }
-#ifdef UNWOUND
-	if (!closer) {
-		ASSERT(!g_S->searched || L - off < g_S->rem, "(T) fewer bytes remain after the search position than remained after the previous match: inserted text is not rescanned, every marker makes progress");
+	if (closer) {
+		ASSERT(h == g_last, "the closing braces are searched from the opening braces");
+	} else if (g_S->opened) {
+		/* (R) where the search for the next marker resumes, given what happened to the previous one */
+		size_t expect = g_S->ins ? g_S->open_off + g_S->ins_len : (g_S->toc ? g_S->stop_off : g_S->open_off + 2);
+		ASSERT(off == expect, "(R) the search resumes right after the inserted text (substituted marker), at the closing braces of {{TOC}}, or right after the opening braces of a marker left in place: no marker is skipped, no inserted text is rescanned");
 	}
-#endif
 	bool found; size_t k;
 	if (!found) { return NULL; }
 	ASSUME(k <= L && (!closer || k >= 2) && off + k + 2 <= L);       /* a match lies inside the string; "}}" cannot overlap the "{{" it is searched from */
 	if (!closer) {
 		g_last = (char *)h + k;
-#ifdef UNWOUND
-		g_S->rem = L - (off + k); g_S->searched = true;
-#endif
+		g_S->opened = true; g_S->open_off = off + k; g_S->ins = false; g_S->toc = false;
+	} else {
+		g_S->stop_off = off + k;
 	}
 	return (char *)h + k;
 }
@@ -177,6 +179,7 @@ char * strncpy(char * dst, const char * src, size_t n) {
 int strncmp(const char * a, const char * b, size_t n) { int r; return r; }
 int strcmp(const char * a, const char * b) {
 	int r;
+	if (!__CPROVER_same_object(a, g_p0) && a[0] == 'T' && a[1] == 'O' && a[2] == 'C' && a[3] == 0) { g_S->toc = (r == 0); }        /* strcmp("TOC", text): the literal is the first argument */
 	/* which entry is b?  decided by where it was read from (the last stack_peek_index), not by its address */
 	if (g_stackp && g_peek_stack == g_stackp && g_peek_idx == g_k && g_k < g_stackp->size && b == (const char *)g_stackp->element[g_k]) { if (r != 0) { g_hit = true; } else { g_eq = true; } }
 	if (g_manifest && g_peek_stack == g_manifest && g_peek_idx == g_mk && g_mk < g_manifest->size && b == (const char *)g_manifest->element[g_mk]) { if (r != 0) { g_mhit = true; } else { g_meq = true; } }
@@ -218,13 +221,8 @@ void mmd_transclude_source(DString * source, const char * search_path, const cha
 #define POST_COMMON (DS_OK(source) && source->str == OLD(source->str) && source->currentStringBufferSize == OLD(source->currentStringBufferSize) \
 	&& POOL_OK(source)                          /* every object the call created was released */ \
 	&& POST_MAN)
-#ifdef UNWOUND
-#define FRAME_T_MINE , g_S->rem, g_S->searched
-#define FRAME_T_THEIRS , g_p0->buf.rem, g_p0->buf.searched
-#else
-#define FRAME_T_MINE
+#define FRAME_T_MINE , g_S->open_off, g_S->stop_off, g_S->ins_len, g_S->opened, g_S->ins, g_S->toc
 #define FRAME_T_THEIRS
-#endif
 #define POOL_OK(src) (!MINE(src) || (!g_p0->fp.live && !g_p0->buf.live && !g_p0->eng.live))
 /* own pool + the pool of nested calls for the call under verification; only its own (opaque) pool for a nested call */
 #define FRAME_POOLS __CPROVER_assigns(MINE(source): __CPROVER_object_whole(g_p0), __CPROVER_object_whole(g_p1) FRAME_T_MINE) \
